@@ -68,7 +68,7 @@ def make_project(nfiles=1, nmod=1, nprog=1, nproc=1, ntype=1, nabs=0, nblock=0, 
         C = [f"subroutine msub{m}(a)", f"  !! module subroutine {m}", "  integer, intent(in) :: a", f"  !! argument of msub{m}"]
         if m == 1 and ntype and links:
             # a derived type local to a procedure: it has no page of its own, its documentation is shown with the procedure's internals
-            C += ["  type loct", "    !! a local type, see [[mod1]] and [[msub1]]", "    integer :: lcomp", "    !! a local component, see [[mod1]]", "  end type loct"]
+            C += ["  type loct", "    !! summary: the local type in short", "    !!", "    !! a local type, see [[mod1]] and [[msub1]]", "    !!", "    !! second paragraph about the local type", "    integer :: lcomp", "    !! a local component, see [[mod1]]", "  end type loct"]
         if m == 1:
             C += ["  " + l for l in nl_lines()]
         if m > 1:
